@@ -53,6 +53,10 @@ pub struct Plan {
     pub shuffle: bool,
     /// 0 none, 1 type none, 2 sRGB
     pub color_profile: u8,
+    /// (frame index, chunk count): pad that frame with empty ignorable (path) chunks up to exactly this
+    /// many chunks; (0, 0) = no padding. Used to hit the 65534/65535/65536 chunk-count boundary.
+    #[serde(default)]
+    pub pad_to: (u32, u32),
 }
 
 impl Plan {
@@ -70,6 +74,7 @@ impl Plan {
             legacy_beside_new: false,
             shuffle: false,
             color_profile: 0,
+            pad_to: (0, 0),
         }
     }
 }
@@ -677,14 +682,25 @@ pub fn encode(s: &Sprite, plan: &Plan) -> Encoded {
             let ig = ignorable_chunk(&mut cx.rng);
             all.push(cx.fin(ig));
         }
+        if plan.pad_to.1 > 0 && plan.pad_to.0 as usize == fi {
+            while all.len() < plan.pad_to.1 as usize {
+                all.push(finish_chunk(W::new(0x2017), 0, &mut cx.rng));
+            }
+        }
         let n = all.len();
         let body: usize = all.iter().map(|c| c.bytes.len()).sum();
         let form = match plan.count_form {
             3 => cx.rng.below(3) as u8,
             f => f,
         };
-        let (old, new) = if n >= 0xFFFF {
+        let (old, new) = if n > 0xFFFF {
             (0xFFFFu16, n as u32)
+        } else if n == 0xFFFF {
+            // exactly 65535 chunks: old-style (0xFFFF, 0) is legal ("if the new field is 0 use the old one")
+            match form {
+                0 => (0xFFFFu16, 0u32),
+                _ => (0xFFFFu16, n as u32),
+            }
         } else {
             match form {
                 0 => (n as u16, 0u32),
